@@ -29,6 +29,7 @@ func c15Raw(kind string, r, c int) string {
 }
 
 type c15AbsTable struct {
+	Off  int        `json:"off"` // shift of the row number in the cell texts (tables of one document differ)
 	Nr   int        `json:"nr"`
 	Nc   int        `json:"nc"`
 	Hdr  bool       `json:"hdr"`
@@ -42,10 +43,11 @@ type c15AbsTable struct {
 	} `json:"m"`
 }
 
-func c15RandTable(rnd *rand.Rand) (c15AbsTable, c15El) {
+func c15RandTable(rnd *rand.Rand, off, maxRows int) (c15AbsTable, c15El) {
 	kinds := []string{"plain", "plain", "plain", "pipe", "nl", "empty", "padded", "uni"}
 	var t c15AbsTable
-	t.Nr, t.Nc = 1+rnd.Intn(5), 1+rnd.Intn(5)
+	t.Off = off
+	t.Nr, t.Nc = 1+rnd.Intn(maxRows), 1+rnd.Intn(5)
 	marks := []string{"none", "first", "all"}
 	if t.Nr >= 2 {
 		marks = append(marks, "lead2", "mid")
@@ -93,7 +95,7 @@ func c15RandTable(rnd *rand.Rand) (c15AbsTable, c15El) {
 			krow = append(krow, k)
 			in := t.M.R > 0 && r >= t.M.R && r < t.M.R+t.M.Rs && c >= t.M.C && c < t.M.C+t.M.Cs
 			anchor := t.M.R == r && t.M.C == c
-			cell := c15SrcCell{Raw: c15Raw(k, r, c), Kind: k, Covered: in && !anchor, Rs: 1, Cs: 1}
+			cell := c15SrcCell{Raw: c15Raw(k, r+off, c), Kind: k, Covered: in && !anchor, Rs: 1, Cs: 1}
 			if anchor {
 				cell.Rs, cell.Cs = t.M.Rs, t.M.Cs
 			}
@@ -138,7 +140,8 @@ func c15RandList(rnd *rand.Rand, uniform bool) []c15Item {
 
 // c15Locate finds the block that carries the element and normalises it to the
 // element's own words (extra text the writer adds around a word is dropped).
-func c15Locate(blocks []c15Block, el *c15El) interface{} {
+// ordinal: for a table, its position among the tables the writer rendered (0-based)
+func c15Locate(blocks []c15Block, el *c15El, ordinal int) interface{} {
 	none := map[string]interface{}{"t": "none"}
 	switch el.T {
 	case "heading":
@@ -170,9 +173,13 @@ func c15Locate(blocks []c15Block, el *c15El) interface{} {
 			}
 		}
 	case "table":
+		k := 0
 		for _, b := range blocks {
 			if b.T == "table" {
-				return map[string]interface{}{"t": "table", "rows": b.Rows}
+				if k == ordinal {
+					return map[string]interface{}{"t": "table", "rows": b.Rows}
+				}
+				k++
 			}
 		}
 	case "para":
@@ -195,7 +202,7 @@ func c15Record(in, out string) error {
 		var events []Event
 		evals := 0
 		for s := 0; s < q.N; s++ {
-			abs, tel := c15RandTable(rnd)
+			abs1, tel := c15RandTable(rnd, 0, 5)
 			c := c15Case{Kind: "R", Off: rnd.Intn(10) - 2, Mx: 1 + rnd.Intn(6), Meta: rnd.Intn(3) == 0, Toc: rnd.Intn(3) == 0}
 			if rnd.Intn(3) == 0 {
 				c.Off, c.Mx = 0, 6
@@ -208,18 +215,47 @@ func c15Record(in, out string) error {
 					isUniform = false
 				}
 			}
-			c.Els = []c15El{
-				{T: "heading", Level: 1 + rnd.Intn(9), W: "hA"},
-				{T: "para", W: "pA"},
-				{T: "list", Items: items, Uniform: isUniform},
-				{T: "heading", Level: 1 + rnd.Intn(9), W: "hB"},
-				tel,
-				{T: "para", W: "pB"},
+			// a random sequence of blocks: one to three tables, next to each other or apart, first or last
+			absOf := map[int]c15AbsTable{}
+			h1 := c15El{T: "heading", Level: 1 + rnd.Intn(9), W: "hA"}
+			h2 := c15El{T: "heading", Level: 1 + rnd.Intn(9), W: "hB"}
+			lst := c15El{T: "list", Items: items, Uniform: isUniform}
+			add := func(el c15El, abs *c15AbsTable) {
+				if abs != nil {
+					absOf[len(c.Els)] = *abs
+				}
+				c.Els = append(c.Els, el)
 			}
-			absEl := func(el *c15El) interface{} {
+			if rnd.Intn(4) == 0 {
+				add(tel, &abs1) // a table as the first block
+				add(h1, nil)
+				add(c15El{T: "para", W: "pA"}, nil)
+				add(lst, nil)
+				add(h2, nil)
+			} else {
+				add(h1, nil)
+				add(c15El{T: "para", W: "pA"}, nil)
+				add(lst, nil)
+				add(h2, nil)
+				add(tel, &abs1)
+			}
+			if rnd.Intn(2) == 0 {
+				a2, t2 := c15RandTable(rnd, 5, 3)
+				add(t2, &a2) // directly after the previous block (often the first table)
+			}
+			add(c15El{T: "para", W: "pB"}, nil)
+			if rnd.Intn(3) == 0 {
+				a3, t3 := c15RandTable(rnd, 8, 3)
+				if rnd.Intn(2) == 0 {
+					a4, t4 := c15RandTable(rnd, 11, 3)
+					add(t4, &a4)
+				}
+				add(t3, &a3) // a table as the last block
+			}
+			absEl := func(n int, el *c15El) interface{} {
 				switch el.T {
 				case "table":
-					return map[string]interface{}{"t": "table", "tb": abs}
+					return map[string]interface{}{"t": "table", "tb": absOf[n]}
 				case "heading":
 					return map[string]interface{}{"t": "heading", "level": el.Level, "w": el.W}
 				case "list":
@@ -235,13 +271,17 @@ func c15Record(in, out string) error {
 						continue
 					}
 					blocks := c15ReadMd(o.Md)
+					ordinal := 0
 					for n := range c.Els {
 						el := &c.Els[n]
 						if el.T == "para" || (o.Only != nil && !o.Only[n]) {
 							continue
 						}
-						events = append(events, Event{"event": "Md", "writer": w, "el": absEl(el), "off": c.Off, "mx": c.Mx,
-							"got": c15Tilde(c15Locate(blocks, el)), "md": c15Truncate(o.Md, 1500)})
+						events = append(events, Event{"event": "Md", "writer": w, "el": absEl(n, el), "off": c.Off, "mx": c.Mx,
+							"got": c15Tilde(c15Locate(blocks, el, ordinal)), "md": c15Truncate(o.Md, 1500)})
+						if el.T == "table" {
+							ordinal++
+						}
 					}
 				}
 			}
